@@ -22,7 +22,7 @@ def run(tier, seed):
                       info=f"isWhiteSpace agrees with Unicode Zs + the ASCII controls on all {n} scalar values (flanking of delimiters next to format characters such as U+200B depends on it)" if not bad else f"isWhiteSpace disagrees with the Unicode whitespace class at {bad}"))
     if bad:
         rep.replays["C09/markdown_it.common.utils.isWhiteSpace/ENUM/unicode-whitespace"] = {"lifted": {"arguments": {"code_points": bad}}, "observed": {"outcome": "isWhiteSpace(cp) != (category Zs or listed control)"}, "replayed": True}
-    gen_universe(rep, "vf.oracles2:c09_literal", "vf.oracles2:gen_c09", tier, "MarkdownIt.render", "esc(t) and charref(t) render as the literal, HTML-escaped t in 7 inline contexts",
+    gen_universe(rep, "vf.oracles2:c09_literal", "vf.oracles2:gen_c09", tier, "MarkdownIt.render", "esc(t) and charref(t) render as the literal, HTML-escaped t in 9 inline contexts",
                  ["commonmark", "cm+table+strike"], "all strings t of <= k characters over a 28-symbol alphabet (ASCII punctuation, letters, non-ASCII, C0), both encodings, 7 templates; distinct = distinct t",
                  "texts x {backslash, character reference} x {paragraph, heading, emphasis, link text, image alt, link title, table cell}")
     rep.explanation = ("Mixed. Deductive: the escape rule (pyvc, all paths): fires only on a backslash, for an ASCII-punctuation successor pushes exactly one text_special whose content is that character and advances by 2, "
